@@ -152,6 +152,10 @@ type world struct {
 	goStmts     map[string]bool
 	timerOK     bool
 	timerDoc    []string
+	timerEdges  map[[2]string]bool // (loop@timer, back-edge) -> the timer is re-armed on it
+	loopData    map[string][2]bool // loop position -> (can park, leaves at a ctx case)
+	errSends    map[string]bool    // plain errCh send position -> followed by return
+	regionData  map[[2]string]int  // (mutex, region) -> operations inside that can park the holder
 	notes       []string
 	headed      bool
 	terminal    bool
@@ -245,7 +249,8 @@ func load() (*world, error) {
 		fieldAs: map[*types.Var][]valRef{}, summ: map[fkey][]Point{}, inprog: map[fkey]bool{},
 		sites: map[*types.Func][]callSite{}, litSumm: map[*ast.FuncLit][]Point{}, litProg: map[*ast.FuncLit]bool{},
 		notFollowed: map[[2]string]bool{}, boundary: map[[3]string]bool{}, external: map[string]bool{}, goStmts: map[string]bool{},
-		headed: true, terminal: true, timerOK: true, termSeen: map[*ast.FuncDecl]bool{}, loopSeen: map[ast.Node]bool{},
+		headed: true, terminal: true, timerOK: true, timerEdges: map[[2]string]bool{}, loopData: map[string][2]bool{},
+		errSends: map[string]bool{}, regionData: map[[2]string]int{}, termSeen: map[*ast.FuncDecl]bool{}, loopSeen: map[ast.Node]bool{},
 		mutexFree: map[string]bool{}, mutexDoc: map[string][]string{}}
 	exports := map[string]string{}
 	byDir := map[string]*listPkg{}
@@ -1027,6 +1032,9 @@ func (w *world) checkTerminal(fr *frame, fd *ast.FuncDecl) {
 	checkStmt = func(s ast.Stmt, nextReturns bool) {
 		switch x := s.(type) {
 		case *ast.SendStmt:
+			if chanName(x.Chan) == "errCh" {
+				w.errSends[w.rel(x.Pos())] = nextReturns
+			}
 			if chanName(x.Chan) == "errCh" && !nextReturns {
 				w.terminal = false
 				w.notes = append(w.notes, fmt.Sprintf("%s: error send not followed by return", w.rel(x.Pos())))
@@ -1580,6 +1588,7 @@ func (w *world) checkTimers(fr *frame, loop *ast.ForStmt) {
 	}
 	for t, name := range timers {
 		var bad []string
+		edgeKey := fmt.Sprintf("%s (%s) timer %s", w.rel(loop.Pos()), fr.fnName, name)
 		var flow func(list []ast.Stmt, cur bool, inSwitch bool) (bool, bool)
 		var one func(st ast.Stmt, cur bool, inSwitch bool) (bool, bool)
 		merge := func(outs [][2]bool) (bool, bool) {
@@ -1613,6 +1622,7 @@ func (w *world) checkTimers(fr *frame, loop *ast.ForStmt) {
 			case *ast.BranchStmt:
 				switch x.Tok {
 				case token.CONTINUE:
+					w.timerEdges[[2]string{edgeKey, fmt.Sprintf("`continue` at %s", w.rel(x.Pos()))}] = cur
 					if !cur {
 						bad = append(bad, fmt.Sprintf("`continue` at %s", w.rel(x.Pos())))
 					}
@@ -1689,6 +1699,9 @@ func (w *world) checkTimers(fr *frame, loop *ast.ForStmt) {
 			return cur, true
 		}
 		cur, falls := flow(loop.Body.List, true, false)
+		if falls {
+			w.timerEdges[[2]string{edgeKey, "end of the loop body"}] = cur
+		}
 		if falls && !cur {
 			bad = append(bad, "end of the loop body")
 		}
@@ -1712,6 +1725,7 @@ func (w *world) checkLoop(fr *frame, loop ast.Node, body *ast.BlockStmt) {
 			park = true
 		}
 	}
+	w.loopData[fmt.Sprintf("%s (%s)", w.rel(loop.Pos()), fr.fnName)] = [2]bool{park, w.ctxReturn(fr, body)}
 	if park && !w.ctxReturn(fr, body) {
 		w.headed = false
 		w.notes = append(w.notes, fmt.Sprintf("%s (%s): loop that can park its goroutine has no `case <-ctx.Done(): …return`", w.rel(loop.Pos()), fr.fnName))
@@ -1865,6 +1879,7 @@ func (w *world) mutexFixpoint(keys []string) {
 					bad = append(bad, fmt.Sprintf("%s %s", w.rel2(p), p.Src))
 				}
 			}
+			w.regionData[[2]string{k, r.where}] = len(bad)
 			w.mutexDoc[k] = append(w.mutexDoc[k], fmt.Sprintf("%s: %d operations that can park the holder%s", r.where, len(bad), func() string {
 				if len(bad) == 0 {
 					return ""
@@ -1886,6 +1901,12 @@ func (w *world) rel2(p Point) string {
 // ------------------------------------------------------------------------------------------------ table
 
 type table struct {
+	RunSel    bool
+	RunWait   bool
+	RunReads  int
+	RunGo     [][3]string // (where, source, "joined" | "unjoined")
+	RunGoOK   []bool
+	PostJoin  []string
 	Workers   map[int][]Point
 	Names     map[int]string
 	Agg, Full []int
@@ -2074,7 +2095,95 @@ func analyse() (*world, *table, error) {
 		}
 		return true
 	})
+	t.RunSel, t.RunWait, t.RunReads = selOK, waitAfter, errReads
 	t.RunOK = selOK && waitAfter && errReads == 1
+	// Run's own `go` statements (and those of the functions of package node it calls): joined by its WaitGroup, or not
+	{
+		seenFd := map[*ast.FuncDecl]bool{}
+		var collect func(fd *ast.FuncDecl)
+		collect = func(fd *ast.FuncDecl) {
+			if fd == nil || fd.Body == nil || seenFd[fd] {
+				return
+			}
+			seenFd[fd] = true
+			fr := w.frameForDecl(np, fd, "node.FullNode.Run")
+			ast.Inspect(fd.Body, func(n ast.Node) bool {
+				switch x := n.(type) {
+				case *ast.GoStmt:
+					j := "unjoined"
+					if w.goJoined(fr, x) {
+						j = "joined"
+					}
+					t.RunGo = append(t.RunGo, [3]string{fmt.Sprintf("%s (%s)", w.rel(x.Pos()), fr.fnName), w.text(x), j})
+					// an un-joined goroutine of Run is accepted only as `X.ListenAndServe()` of an http.Server (ended by the
+					// Shutdown calls of the post-join phase)
+					serves := false
+					ast.Inspect(x.Call, func(k ast.Node) bool {
+						if c, ok := k.(*ast.CallExpr); ok {
+							if fn, ok := w.staticCallee(np.info, c.Fun).(*types.Func); ok && fn.FullName() == "(*net/http.Server).ListenAndServe" {
+								serves = true
+							}
+						}
+						return true
+					})
+					t.RunGoOK = append(t.RunGoOK, j == "joined" || serves)
+				case *ast.CallExpr:
+					if fn, ok := w.staticCallee(np.info, x.Fun).(*types.Func); ok && fn.Pkg() == np.tpkg {
+						if d, ok := w.decls[fn.Origin()]; ok {
+							collect(d.fd)
+						}
+					}
+				}
+				return true
+			})
+		}
+		collect(run)
+		// the post-join phase: what Run calls after wg.Wait() (logging / error plumbing aside)
+		after := false
+		seenCall := map[string]bool{}
+		for _, st := range run.Body.List {
+			if es, ok := st.(*ast.ExprStmt); ok {
+				if c, ok := es.X.(*ast.CallExpr); ok {
+					if fn, ok := w.staticCallee(np.info, c.Fun).(*types.Func); ok && fn.FullName() == "(*sync.WaitGroup).Wait" {
+						after = true
+						continue
+					}
+				}
+			}
+			if !after {
+				continue
+			}
+			ast.Inspect(st, func(n ast.Node) bool {
+				c, ok := n.(*ast.CallExpr)
+				if !ok {
+					return true
+				}
+				fn, ok := w.staticCallee(np.info, c.Fun).(*types.Func)
+				if !ok || fn.Pkg() == nil {
+					return true
+				}
+				switch fn.Pkg().Path() {
+				case "fmt", "errors", "github.com/ipfs/go-log/v2", "time":
+					return true
+				}
+				name := fn.Origin().FullName()
+				if isRepoPkg(fn.Pkg()) {
+					name = qualName(fn.Origin())
+					if sig, _ := fn.Type().(*types.Signature); sig != nil && sig.Recv() != nil && types.IsInterface(sig.Recv().Type()) {
+						if s, ok := unparen(c.Fun).(*ast.SelectorExpr); ok {
+							name = w.recvTypeName(np.info, s) + "." + fn.Name()
+						}
+					}
+				}
+				if !seenCall[name] {
+					seenCall[name] = true
+					t.PostJoin = append(t.PostJoin, name)
+				}
+				return true
+			})
+		}
+		sort.Strings(t.PostJoin)
+	}
 	if !t.RunOK {
 		w.notes = append(w.notes, fmt.Sprintf("Run protocol: select(errCh,parent)=%v wg.Wait after=%v reads of errCh=%d", selOK, waitAfter, errReads))
 	}
@@ -2207,7 +2316,49 @@ func Facts() (string, error) {
 	pf("]\n")
 	pf("/-- Run waits in one select on errCh and the parent context, reads errCh nowhere else, and joins with wg.Wait() -/\n")
 	pf("def runProtocol : Bool := %s\n", hx.LeanBool(t.RunOK))
+	pf("/-- the data behind `runProtocol`: Run has a select over errCh and the parent context; a (*sync.WaitGroup).Wait follows it; number\n of receives from errCh in Run -/\n")
+	pf("def runSelectOverErrChAndParent : Bool := %s\ndef runWaitsAfterSelect : Bool := %s\ndef runErrChReads : Nat := %d\n", hx.LeanBool(t.RunSel), hx.LeanBool(t.RunWait), t.RunReads)
+	pf("/-- `go` statements of Run and of the functions of package node it calls: (where, source, joined | unjoined, acceptable =\n joined by Run's WaitGroup or an http.Server.ListenAndServe that the post-join Shutdown ends) -/\n")
+	pf("def runGoStmts : List (String × String × String × Bool) := [")
+	for i, g := range t.RunGo {
+		if i > 0 {
+			pf(",\n  ")
+		}
+		pf("(%q, %q, %q, %s)", g[0], g[1], g[2], hx.LeanBool(t.RunGoOK[i]))
+	}
+	pf("]\n")
+	pf("/-- the post-join phase of Run: what it calls after wg.Wait() (logging and error plumbing aside).  Not in the table: declared\n boundary (Spec.C13.declaredPostJoin, props assumptions) -/\ndef runPostJoinCalls : List String := %s\n", strs(t.PostJoin))
 	pf("/-- every plain `errCh <- …` is followed by `return` -/\ndef errSendsTerminal : Bool := %s\n", hx.LeanBool(w.terminal))
+	{
+		var ks []string
+		for k := range w.errSends {
+			ks = append(ks, k)
+		}
+		sort.Strings(ks)
+		pf("/-- the data behind `errSendsTerminal`: (plain error send, followed by return) -/\ndef plainErrSends : List (String × Bool) := [")
+		for i, k := range ks {
+			if i > 0 {
+				pf(", ")
+			}
+			pf("(%q, %s)", k, hx.LeanBool(w.errSends[k]))
+		}
+		pf("]\n")
+	}
+	{
+		var ks []string
+		for k := range w.loopData {
+			ks = append(ks, k)
+		}
+		sort.Strings(ks)
+		pf("/-- the data behind `loopsHeaded`: (loop, its body - calls followed - can park the goroutine, its body leaves the function at\n a case on the node context) -/\ndef loopChecks : List (String × Bool × Bool) := [")
+		for i, k := range ks {
+			if i > 0 {
+				pf(",\n  ")
+			}
+			pf("(%q, %s, %s)", k, hx.LeanBool(w.loopData[k][0]), hx.LeanBool(w.loopData[k][1]))
+		}
+		pf("]\n")
+	}
 	pf("/-- every `for {…}`, `for cond {…}` and `for range ch {…}` reached from a loop whose body (calls followed) holds an\n operation that can park the goroutine has a `case <-ctx.Done(): … return` on the NODE context in its body -/\ndef loopsHeaded : Bool := %s\n", hx.LeanBool(w.headed))
 	// mutexes
 	var mkeys []string
@@ -2238,6 +2389,21 @@ func Facts() (string, error) {
 		for _, d := range ds {
 			mdoc = append(mdoc, k+" @ "+d)
 		}
+	}
+	{
+		var ks [][2]string
+		for k := range w.regionData {
+			ks = append(ks, k)
+		}
+		sort.Slice(ks, func(i, j int) bool { return ks[i][0]+"\x00"+ks[i][1] < ks[j][0]+"\x00"+ks[j][1] })
+		pf("/-- the data behind `mutexes` / `mutexRegionsNonBlocking`: (mutex code, critical section, number of operations inside - calls\n followed - that can park the holder) -/\ndef mutexRegionData : List (Nat × String × Nat) := [")
+		for i, k := range ks {
+			if i > 0 {
+				pf(",\n  ")
+			}
+			pf("(%d, %q, %d)", mid[k[0]], k[1], w.regionData[k])
+		}
+		pf("]\n")
 	}
 	pf("/-- the critical sections found (documentation) -/\ndef mutexRegionsDoc : List String := %s\n", strs(mdoc))
 	pf("/-- COMPLETENESS: calls met on the walks (loops and critical sections) that lead into the repository's own packages, or\n through func values, and could NOT be resolved and followed: (caller, what).  Spec.C13 requires `[]`. -/\n")
@@ -2288,6 +2454,21 @@ func Facts() (string, error) {
 	}
 	pf("/-- every `for { select { … case <-t.C: … } … }` met on the walks with t a *time.Timer re-arms t (t.Reset, directly or through a\n function it is handed to) on every path from that case back to the head of the loop -/\n")
 	pf("def timerLoopsRearmOnEveryPath : Bool := %s\ndef timerLoopsDoc : List String := %s\n", hx.LeanBool(w.timerOK), strs(tdoc))
+	{
+		var ks [][2]string
+		for k := range w.timerEdges {
+			ks = append(ks, k)
+		}
+		sort.Slice(ks, func(i, j int) bool { return ks[i][0]+"\x00"+ks[i][1] < ks[j][0]+"\x00"+ks[j][1] })
+		pf("/-- the data behind `timerLoopsRearmOnEveryPath`: (loop and timer, back-edge to the loop head reachable after the timer fired,\n the timer is re-armed on every path to it) -/\ndef timerBackEdges : List (String × String × Bool) := [")
+		for i, k := range ks {
+			if i > 0 {
+				pf(",\n  ")
+			}
+			pf("(%q, %q, %s)", k[0], k[1], hx.LeanBool(w.timerEdges[k]))
+		}
+		pf("]\n")
+	}
 	pf("/-- blocking points: (loop code, kind, channel code, flag) - kind 0 ctxSelect (a select with a case on a context DERIVED\n from the node context), 1 sleep (flag = constant / configuration duration / min of those), 2 send, 3 recv (flag = inside a\n select with such a ctx case or a default), 4 plain send on errCh, 5 mutex Lock/RLock (channel = mutex code, flag = no\n critical section of it can park its holder), 6 join: WaitGroup.Wait / Cond.Wait (flag false) or errgroup Wait (flag = all\n joined functions are walked in place), 7 spawn: a `go` statement that is not joined.  `for range ch` and `select {}` are\n plain receives.\n Channel codes: 0 errCh 1 headerInCh 2 dataInCh 3 headerStoreCh 4 dataStoreCh 5 retrieveCh 6 daIncluderCh 7 txNotifyCh\n 8 timer 9 never, >=100 local. -/\n")
 	pf("def points : List (Nat × Nat × Nat × Bool) := [\n")
 	first := true
